@@ -688,6 +688,15 @@ class Opa:
             # canonical orientation of comparisons with a constant: the constant on the right
             a, b = b, a
             op = {'Lt': 'Gt', 'Gt': 'Lt', 'Le': 'Ge', 'Ge': 'Le'}.get(op, op)
+        # identity elements: 0 + x, x + 0, x - 0, 1 * x, x * 1, x / 1, x << 0, x >> 0
+        if op == 'Add' and a == ('const', 0):
+            return b
+        if op in ('Add', 'Sub', 'Shl', 'Shr') and b == ('const', 0):
+            return a
+        if op == 'Mul' and a == ('const', 1):
+            return b
+        if op in ('Mul', 'Div') and b == ('const', 1):
+            return a
         if const_int(a) and const_int(b):
             x, y = a[1], b[1]
             try:
@@ -886,6 +895,14 @@ class Opa:
             return a0[3][0]
         if p == 'std::option::Option::unwrap_or' and a0 is not None and a0[0] == 'variant' and a0[2] == 0:
             return argv[1]
+        if p in ('std::option::Option::or', 'std::option::Option::xor') and len(argv) == 2 and a0 is not None and a0[0] == 'variant' and a0[1] == 'std::option::Option':
+            # a.or(b): a if a is Some, else b   (xor differs only for (Some, Some), which is left uninterpreted)
+            if a0[2] == 0:
+                return argv[1]
+            if p.endswith('::or'):
+                return a0
+        if p == 'std::option::Option::and' and len(argv) == 2 and a0 is not None and a0[0] == 'variant' and a0[1] == 'std::option::Option':
+            return none() if a0[2] == 0 else argv[1]
         return ('call', callee, tuple(argv))
 
     def inline(self, name, argv, seeds, depth):
